@@ -561,6 +561,9 @@ func (p c20) firstUse(c *core.Ctx, clock *opClock, G int) {
   typedef t1 { type int32 { range "0..100"; } default "5"; units "u"; } typedef t2 { type t1 { range "10..20"; } }
   typedef u1 { type union { type int32; type string; } }
   identity base; identity d1 { base base; } identity d2 { base d1; }
+  identity mb1; identity mb2; identity mb3; identity multi { base mb1; base mb2; base mb3; }
+  typedef tri { type identityref { base mb1; base mb2; base mb3; } }
+  leaf mu1 { type union { type tri; type identityref { base base; } } } leaf mu2 { type union { type tri; type ids:ext-ref; } }
   leaf a { type t2; } leaf b { type enumeration { enum x; enum y; } default "y"; } leaf d { type u1; } leaf d2 { type union { type uint8; type boolean; type string { length "1..3"; } } }
   leaf-list dl { type u1; } leaf f { type leafref { path "../a"; } } leaf g { type identityref { base base; } } leaf h { type bits { bit b0; bit b1; } }
   leaf s { type string { pattern "[a-z]+"; length "1..10"; } } leaf dec { type decimal64 { fraction-digits 2; range "0..10"; } }
@@ -568,7 +571,7 @@ func (p c20) firstUse(c *core.Ctx, clock *opClock, G int) {
   container c { leaf inner { type string; } leaf wl { when "inner='i'"; type string; } } leaf tl { when "a>5"; type string; }
   container cd { leaf n { type int32; } leaf-list tags { type string; default "a"; default "b"; } leaf-list nums { type int32; default "1"; default "2"; } } }`
 	doc := func(g int) string {
-		return fmt.Sprintf(`{"gi":"e2","gt":"e1","gl":["e1","local-e"],"gu":"e2","a":%d,"b":"x","d":"text%d","d2":%d,"dl":[1,"two",3],"f":%d,"g":"d2","h":"b0 b1","s":"abc","dec":1.5,"l":[{"k":"k%d","v":7,"w":"s"},{"k":"z%d","v":8,"w":9}],"c":{"inner":"i","wl":"w"},"tl":"t","cd":{"n":1}}`, 10+g%10, g, g%200, 10+g%10, g, g)
+		return fmt.Sprintf(`{"gi":"e2","gt":"e1","gl":["e1","local-e"],"gu":"e2","mu1":"d2","mu2":"e1","a":%d,"b":"x","d":"text%d","d2":%d,"dl":[1,"two",3],"f":%d,"g":"d2","h":"b0 b1","s":"abc","dec":1.5,"l":[{"k":"k%d","v":7,"w":"s"},{"k":"z%d","v":8,"w":9}],"c":{"inner":"i","wl":"w"},"tl":"t","cd":{"n":1}}`, 10+g%10, g, g%200, 10+g%10, g, g)
 	}
 	load := func() *meta.Module {
 		m, err := parser.LoadModule(func(name, ext string) (io.Reader, error) {
